@@ -324,3 +324,10 @@ def find_harness(name):
 
 
 EXTRA_HARNESSES = []
+
+# thorough tier: the same harnesses with larger bounds (applied to the per-run snapshot of the harness files)
+THOROUGH_BOUNDS = {
+    'layout.rs': [('const OSH_N: usize = 3;', 'const OSH_N: usize = 4;'),
+                  ('const WQ_N: usize = 4;', 'const WQ_N: usize = 5;')],
+}
+THOROUGH_NOTE = 'one-shot tables <= 4 coordinates, event queue <= 5 events'
